@@ -62,7 +62,7 @@ fn as_done<T>(t: &T) -> Option<&DoneMsg> {
 pub mod mpsc {
     use super::*;
     use shuttle::sync::mpsc as inner;
-    pub use std::sync::mpsc::{RecvError, SendError};
+    pub use std::sync::mpsc::{RecvError, SendError, TryRecvError, TrySendError};
 
     pub struct SyncSender<T>(inner::SyncSender<T>);
     pub struct Receiver<T>(inner::Receiver<T>);
@@ -101,6 +101,57 @@ pub mod mpsc {
             // after it returns is logging at the linearisation point
             log(format!("{} {}", d, r.is_ok()));
             r
+        }
+    }
+
+    impl<T> SyncSender<T> {
+        /// non-blocking send (not used by the library as it stands; a rewrite may use it): logged like `send`
+        /// when it succeeds or finds the channel closed, not at all when the channel is full
+        pub fn try_send(&self, t: T) -> Result<(), TrySendError<T>> {
+            let d = describe_send(&t);
+            let r = self.0.try_send(t);
+            match &r {
+                Ok(()) => log(format!("{} true", d)),
+                Err(TrySendError::Disconnected(_)) => log(format!("{} false", d)),
+                Err(TrySendError::Full(_)) => {}
+            }
+            r
+        }
+    }
+
+    impl<T> Receiver<T> {
+        /// non-blocking receive: logged like `recv` unless the channel is empty
+        pub fn try_recv(&self) -> Result<T, TryRecvError> {
+            match self.0.try_recv() {
+                Err(TryRecvError::Empty) => Err(TryRecvError::Empty),
+                Ok(v) => {
+                    let r = Ok(v);
+                    log_recv(&r);
+                    r.map_err(|_: RecvError| TryRecvError::Disconnected)
+                }
+                Err(TryRecvError::Disconnected) => {
+                    log_recv::<T>(&Err(RecvError));
+                    Err(TryRecvError::Disconnected)
+                }
+            }
+        }
+    }
+
+    fn log_recv<T>(r: &Result<T, RecvError>) {
+        if type_name::<T>() == type_name::<DS>() {
+            match r {
+                Ok(v) => log(format!("EEmptyRecv Some {}", as_ds(v).unwrap().tag)),
+                Err(_) => log("EEmptyRecv None".to_string()),
+            }
+        } else if type_name::<T>() == type_name::<DoneMsg>() {
+            match r {
+                Ok(v) => match as_done(v).unwrap() {
+                    Some(Ok((ds, o))) => log(format!("EDoneRecv RData {} {} {}", ds.tag, ds.content, o)),
+                    Some(Err(_)) => log("EDoneRecv RErr".to_string()),
+                    None => log("EDoneRecv REnd".to_string()),
+                },
+                Err(_) => log("EDoneRecv RClosed".to_string()),
+            }
         }
     }
 
